@@ -82,7 +82,9 @@ def cases(run):
     EXHAUSTIVE_NOTE = ("all layouts (incl. zero-length, adjacent, nested, duplicate blocks) with " + ", ".join(
         f"<= {k} blocks on positions 0..{g}" for k, g in scopes) +
         " x strands + - . x 5 nucleotide alphabets (one random parent sequence per layout and alphabet): extract, "
-        "reverse_strand, every split point; slices: every (start, stop) in {None, -n-2..n+2}^2 x step in {None,1,2,-1,0} and "
+        "reverse_strand, every split point, identity-like re-constructions (reset_strand to each strand, reverse_strand "
+        "twice, reset_parent(same), optimize_blocks, shift_position(0)) followed by extraction; a deterministic half of "
+        "all lines (crc32 of the line odd) runs with the lazily cached state of every operand filled beforehand; slices: every (start, stop) in {None, -n-2..n+2}^2 x step in {None,1,2,-1,0} and "
         "every int index in [-n-2, n+2] on all layouts with <= 2 blocks on positions 0..%d (both strands); append: "
         "pairs of sub-slices of those objects (all pairs in the thorough tier)" % (2 if quick else 3))
     seen = set()
@@ -113,6 +115,21 @@ def cases(run):
                             if quick and alph != "NT_EXTENDED_GAPPED" and rng.random() < 0.6:
                                 continue
                             yield f"split {alph} ~{p} {loc} {k}"
+    # 1b identity-like re-constructions followed by extraction (half of all lines run with warmed caches) ----------
+    xforms = ["rs +", "rs -", "rs .", "rev2", "rp", "opt", "sh0"]
+    for blocks in layouts:
+        if quick and len(blocks) == 3 and rng.random() < 0.5:
+            continue
+        hi = max(e for _, e in blocks)
+        alph = rng.choice(NT)
+        p = rand_seq(rng, alph, hi + rng.randint(0, 2)) or rand_seq(rng, alph, 1)
+        for st, loc in _locs(blocks, ("+", "-", ".") if not quick or rng.random() < 0.25 else ("+", "-")):
+            for t in xforms:
+                run.count("xform:" + t.split()[0])
+                yield f"xform {alph} ~{p} {loc} {t}"
+    for t in xforms:
+        yield f"xform NT_STRICT ~ACGT E {t}"
+        yield f"xform NT_STRICT ~ACGT S + 2 9 {t}"
     # other alphabets and malformed locations (model correspondence; the spec is n/a or demands refusal)
     for alph in ("AA", "GENERIC"):
         p = rand_seq(rng, alph, 8)
@@ -181,6 +198,7 @@ def cases(run):
         yield f"extract {alph} ~{p} {loc}"
         yield f"revstrand {alph} ~{p} {loc}"
         yield f"split {alph} ~{p} {loc} {rng.randint(0, n)}"
+        yield f"xform {alph} ~{p} {loc} {rng.choice(['rs +', 'rs -', 'rev2', 'rp', 'opt', 'sh0'])}"
         # a random chain of steps
         prog = []
         cur = n
